@@ -18,6 +18,8 @@ pub struct P07 {
     pub hostile_input: bool,
     /// Expect / body / mixed pieces are part of the alphabet (server-generated interim replies)
     pub all_pieces: bool,
+    /// long pipelines and answers handed over in one `enqueue_responses` batch are part of the alphabet
+    pub batches: bool,
     /// coverage: descriptor number -> last generation seen on it
     fd_owner: HashMap<i32, usize>,
     reuse_after_inflight_close: bool,
@@ -26,7 +28,7 @@ pub struct P07 {
 
 impl P07 {
     pub fn new(max_clients: usize, max_reqs_per_gen: usize) -> Self {
-        P07 { max_clients, max_reqs_per_gen, hostile_input: false, all_pieces: false, fd_owner: HashMap::new(), reuse_after_inflight_close: false, closed_with_inflight: Vec::new() }
+        P07 { max_clients, max_reqs_per_gen, hostile_input: false, all_pieces: false, batches: false, fd_owner: HashMap::new(), reuse_after_inflight_close: false, closed_with_inflight: Vec::new() }
     }
     fn judge_all(&self, sim: &Sim) -> Option<(String, String)> {
         for g in &sim.gens {
@@ -97,6 +99,9 @@ impl HistoryProp for P07 {
                         if g.seq + 2 <= self.max_reqs_per_gen {
                             v.push(Act::Send(c, Piece::Two));
                         }
+                        if self.batches && g.seq + 9 <= self.max_reqs_per_gen {
+                            v.push(Act::Send(c, Piece::Many));
+                        }
                     }
                 }
                 v.push(Act::Close(c));
@@ -116,6 +121,10 @@ impl HistoryProp for P07 {
         }
         for i in 0..sim.outstanding.len() {
             v.push(Act::Respond(i, Size::Small));
+        }
+        if self.batches && sim.outstanding.len() >= 2 {
+            // the permutation is a function of the history so far (replayable)
+            v.push(Act::RespondBatch(2 + (sim.step as u64) * 7919 + sim.outstanding.len() as u64, Size::Small));
         }
         v
     }
@@ -167,6 +176,10 @@ impl HistoryProp for P07 {
         ctx.rep.add("requests_yielded", sim.gens.iter().map(|g| g.yielded.len() as u64).sum());
         ctx.rep.add("responses_supplied", sim.gens.iter().map(|g| g.supplied.len() as u64).sum());
         ctx.rep.add("api_errors_seen_not_judged_here", sim.api_errors.len() as u64);
+        ctx.rep.add("enqueue_responses_batches", sim.batches as u64);
+        if sim.batch_max > 20 {
+            ctx.rep.count("histories_with_a_batch_of_more_than_20_responses");
+        }
         let r = self.judge_all(sim);
         if r.is_none() {
             let mut app = 0u64;
@@ -212,6 +225,7 @@ fn choose(rng: &mut Rng, sim: &Sim, en: &[Act]) -> Option<Act> {
                     1
                 }
             }
+            Act::Send(_, Piece::Many) => 5,
             Act::Send(_, _) => 6,
             Act::Close(c) => {
                 let inflight = sim.gen_of(*c).map(|gi| sim.gens[gi].yielded.len() > sim.gens[gi].supplied.len()).unwrap_or(false);
@@ -223,6 +237,7 @@ fn choose(rng: &mut Rng, sim: &Sim, en: &[Act]) -> Option<Act> {
             }
             Act::ShutRd(_) | Act::ShutWr(_) => 1,
             Act::Drain(_) => 5,
+            Act::RespondBatch(_, _) => 2 + sim.outstanding.len().min(12),
             Act::Respond(i, _) => {
                 // late answers to connections that are gone are the interesting ones
                 let gone = sim.outstanding[*i].gen_idx.map(|gi| sim.gens[gi].client_closed).unwrap_or(false);
@@ -249,6 +264,67 @@ fn choose(rng: &mut Rng, sim: &Sim, en: &[Act]) -> Option<Act> {
         x -= w;
     }
     None
+}
+
+/// k clients pipeline 9..18 requests each; everything yielded is answered with ONE
+/// `enqueue_responses` batch in a permuted (interleaved) order, possibly after some clients left.
+fn batch_family(ctx: &mut Ctx, n: u64) {
+    let mut rng = ctx.rng.fork(0xC07BA7);
+    let mut p = P07::new(6, 19);
+    p.batches = true;
+    for _ in 0..n {
+        ctx.begin();
+        ctx.rep.evaluations += 1;
+        ctx.rep.count("histories_batch_family");
+        let k = 2 + rng.below(4);
+        let mut acts = Vec::new();
+        for c in 0..k {
+            acts.push(Act::Connect(c));
+        }
+        acts.push(Act::Poll);
+        acts.push(Act::Poll);
+        for c in 0..k {
+            acts.push(Act::Send(c, Piece::Many));
+            if rng.chance(1, 2) {
+                acts.push(Act::Send(c, Piece::Many));
+            }
+            if rng.chance(1, 3) {
+                acts.push(Act::Send(c, Piece::Get));
+            }
+            if rng.chance(1, 3) {
+                acts.push(Act::Poll);
+            }
+        }
+        for _ in 0..(2 * k + 2) {
+            acts.push(Act::Poll);
+        }
+        if rng.chance(1, 3) {
+            // one client leaves with everything in flight; its share of the batch must be dropped
+            acts.push(Act::Close(rng.below(k)));
+            acts.push(Act::Poll);
+        }
+        if rng.chance(1, 4) {
+            // part of the answers arrive one by one first
+            acts.push(Act::Respond(rng.below(9), Size::Small));
+            acts.push(Act::Respond(rng.below(9), Size::Small));
+        }
+        let perm = match rng.below(4) {
+            0 => 0,
+            1 => 1,
+            _ => 2 + rng.next() % 1_000_000,
+        };
+        acts.push(Act::RespondBatch(perm, if rng.chance(1, 5) { Size::Medium } else { Size::Small }));
+        for _ in 0..4 {
+            acts.push(Act::Poll);
+        }
+        let out = hist::run_history(ctx, &mut p, &acts, true, false);
+        if let Some((k, d)) = out.violation {
+            ctx.rep.violation(&format!("C07:{}", k), d, hist::history_json(&acts, vec![]));
+            if ctx.rep.violations_total > 30 {
+                break;
+            }
+        }
+    }
 }
 
 pub fn run(ctx: &mut Ctx) {
@@ -278,6 +354,11 @@ pub fn run(ctx: &mut Ctx) {
     let mut p = P07::new(2, 2);
     p.hostile_input = true;
     hist::dfs(ctx, &mut p, if quick { 6 } else { 8 }, 3, "C07", 12);
+    // long pipelines answered through `enqueue_responses` in one interleaved batch
+    let mut p = P07::new(4, 19);
+    p.batches = true;
+    hist::random_histories(ctx, &mut p, n / 2 + 1, 20, 90, "C07", &mut choose);
+    batch_family(ctx, n / 2 + 1);
     // histories around the capacity boundary (up to 13 clients): closes with requests in flight,
     // newcomers while the server is full, late answers
     let mut rng = ctx.rng.fork(0xC0710);
@@ -309,5 +390,6 @@ pub fn replay(ctx: &mut Ctx, case: &J) {
     let mut p = P07::new(4, 3);
     p.hostile_input = true;
     p.all_pieces = true;
+    p.batches = true;
     hist::replay_history(ctx, &mut p, case, "C07");
 }
